@@ -119,6 +119,8 @@ where
                         loop {
                             if pending.is_empty() {
                                 pending = {
+                                    #[cfg(getong_stateright_verif)]
+                                    crate::verif::yield_point(31);
                                     let jobs = job_broker.pop();
                                     if jobs.is_empty() {
                                         log::debug!(
@@ -193,6 +195,8 @@ where
                                 &max_depth,
                             );
                             pending.append(&mut targetted_pending);
+                            #[cfg(getong_stateright_verif)]
+                            crate::verif::yield_point(32);
                             if job_broker.is_shut_down() {
                                 // Timed out, or another worker stopped: observed once per
                                 // block even if this worker never shares or requests work.
@@ -223,6 +227,8 @@ where
 
                             // Step 2: Share work.
                             if pending.len() > 1 && thread_count > 1 {
+                                #[cfg(getong_stateright_verif)]
+                                crate::verif::yield_point(33);
                                 job_broker.split_and_push(&mut pending);
                             }
                         }
@@ -376,6 +382,8 @@ where
                     continue;
                 }
                 state_count.fetch_add(1, Ordering::Relaxed);
+                #[cfg(getong_stateright_verif)]
+                crate::verif::yield_point(34);
 
                 // Skip if already generated.
                 //
